@@ -74,6 +74,9 @@ func (c14) Gen(rs uint64, tier string, race bool) interface{} {
 				pal = append(pal, "RYKM"[r.Intn(4)]) // IUPAC ambiguity (also amino acids)
 			}
 		}
+		if r.Chance(0.08) {
+			pal = append(pal, "*."[r.Intn(2)]) // stop / missing, identity marker: not counted by the entropy
+		}
 		for i := range col {
 			col[i] = pal[r.Intn(len(pal))]
 			if lower && r.Chance(0.35) && col[i] >= 'A' && col[i] <= 'Z' {
@@ -460,9 +463,13 @@ func (c14) Run(ctx *Ctx, ci interface{}) (o Outcome) {
 		return b
 	}
 	hasLower := false
+	hasSpecial := false // '*' (stop / missing) or '.' (identity with the first row): only the clauses that name them are evaluated
 	for _, s := range a.Seqs {
 		if s != strings.ToUpper(s) {
 			hasLower = true
+		}
+		if strings.ContainsAny(s, "*.") {
+			hasSpecial = true
 		}
 	}
 	allc := byte('N')
@@ -589,7 +596,7 @@ func (c14) Run(ctx *Ctx, ci interface{}) (o Outcome) {
 			return
 		}
 	}
-	if !hasLower {
+	if !hasLower && !hasSpecial {
 		// variable and informative sites under both readings of "N/X are not considered"
 		var vA, vB int
 		var infA, infB []int
@@ -657,7 +664,7 @@ func (c14) Run(ctx *Ctx, ci interface{}) (o Outcome) {
 			o.Add("pssm_columns_checked", int64(L))
 		}
 	}
-	if !hasLower {
+	if !hasLower && !hasSpecial {
 		// unique characters, count profile, unique gaps / residues per row, differences to the first row, alleles
 		var uc []byte
 		for ch := range total {
@@ -831,7 +838,7 @@ func (c14) Run(ctx *Ctx, ci interface{}) (o Outcome) {
 		}
 		o.Add("extra_definitions_checked", 1)
 	}
-	if !hasLower && c.Ref >= 0 && c.Ref < n {
+	if !hasLower && !hasSpecial && c.Ref >= 0 && c.Ref < n {
 		// substitutions / insertions / deletions against the reference row, from the
 		// documented meaning: insertions = runs of residues facing gaps of the reference,
 		// N/X and IUPAC-compatible residues are never substitutions
